@@ -648,8 +648,8 @@ func (c *flowCtx) call(call *ssa.Call, resIdx int) APSet {
 		out.add(c.paths(args[0]), "."+f)
 		return out
 	}
-	// module function with a body: use its summary
-	if cal.Static != nil && len(cal.Static.Blocks) > 0 && c.fl.w.inModule(cal.Static) && c.depth < c.fl.MaxDepth {
+	// module function with a body: use its summary (except reflection-based store helpers, modelled as opaque loads)
+	if cal.Static != nil && len(cal.Static.Blocks) > 0 && c.fl.w.inModule(cal.Static) && c.depth < c.fl.MaxDepth && !opaqueModuleCallee(cal) {
 		return c.enter(cal.Static, args, resIdx, call)
 	}
 	// higher-order helper: bind closure parameters to the element paths of the other arguments
@@ -730,6 +730,18 @@ func (c *flowCtx) call(call *ssa.Call, resIdx int) APSet {
 func isPointer(t types.Type) bool {
 	_, ok := t.Underlying().(*types.Pointer)
 	return ok
+}
+
+// opaqueModuleCallee: module helpers whose data flow goes through reflection; their result is modelled as an
+// opaque value depending on the arguments (T3 summary table).
+func opaqueModuleCallee(cal Callee) bool {
+	if cal.Pkg == modPath+"/util/keeper" {
+		switch cal.Name {
+		case "Load", "IterAll", "IterAllRaw", "IterAllFnc":
+			return true
+		}
+	}
+	return false
 }
 
 // enter applies the callee's summary (result resIdx; -1 = all results) to the arguments.
